@@ -522,8 +522,37 @@ def e2e_oracle(ck, spec, res, canon_warnings, case):
                 scale = P[ds["scale"]] if ds.get("scale") is not None else 1.0
                 if ds.get("gmcs"):
                     _, order = c02._columns(spec, ds, 0, P)
-                    _, gorder = c02._columns(spec, ds, 0, P, global_mcs=True)
+                    gcols, gorder = c02._columns(spec, ds, 0, P, global_mcs=True)
                     nclps += len(order) * len(gorder)
+                    # full model: one least-squares problem over all points; the weight of point (model m, global g) —
+                    # checked above to sit on the weight items' intervals — multiplies the row and the datum of THAT point
+                    rows, ys, pos = [], [], []
+                    for gi in range(len(ds["global_axis"])):
+                        cols, order_g = c02._columns(spec, ds, gi, P)
+                        for m in range(d.shape[0]):
+                            row = [gcols[gl][gi] * cols[l][m] for gl in gorder for l in order_g]
+                            if w is not None:
+                                row = [v * w[m, gi] for v in row]
+                            rows.append(row)
+                            ys.append(d[m, gi])
+                            pos.append((m, gi))
+                    A = np.array(rows, dtype=float)
+                    if A.shape[0] >= A.shape[1] and np.linalg.matrix_rank(A) == A.shape[1] and np.linalg.cond(A) < 1e6:
+                        _, rref = c02._solve(A, np.array(ys, dtype=float), nnls)
+                        r = res.data[ds["label"]]
+                        name = "weighted_residual" if (w is not None and "weighted_residual" in r) else "residual"
+                        got = arr(r[name], "model", "global")
+                        ref = np.zeros_like(got)
+                        for (m, gi), v in zip(pos, rref):
+                            ref[m, gi] = v
+                        sc = max(1.0, float(np.max(np.abs(ys))) if ys else 1.0)
+                        if got.shape != ref.shape or not np.all(np.abs(got - ref) <= 1e-8 * sc):
+                            ck.violation("e2e-full-model-fit-differs-from-weighted-ls",
+                                         f"{ds['label']!r} (global model): {name} differs from the least-squares fit of the Kronecker "
+                                         f"problem whose rows and data carry the reported weight of their own point "
+                                         f"(max deviation {float(np.max(np.abs(got - ref))) if got.shape == ref.shape else 'shape'})",
+                                         {**case, "dataset": ds["label"]})
+                            return
                     continue
                 real_clp = arr(res.data[ds["label"]].clp, "global", "clp_label")
                 real_labels = [str(v) for v in res.data[ds["label"]].clp.coords["clp_label"].values]
